@@ -188,7 +188,10 @@ def main(argv=None):
     quiet_pydrex()
 
     if a.one:  # determinism self-test child: run one case, print its digest
-        _MOD.warmup()
+        try:
+            _MOD.warmup()
+        except Exception:
+            pass
         quiet_pydrex()
         r = _MOD.run_case(json.loads(a.one))
         print("OBS " + r["obs"])
@@ -226,7 +229,12 @@ def main(argv=None):
             cwd=ROOT,
         )
 
-    _MOD.warmup()
+    warm_error = None
+    try:
+        _MOD.warmup()
+    except Exception as e:  # a broken implementation must fail in the cases, not here
+        warm_error = f"{type(e).__name__}: {str(e)[:200]}"
+        print(f"warmup raised {warm_error}; continuing (the cases decide)", flush=True)
     quiet_pydrex()
     t_warm = time.time() - t0
 
@@ -421,6 +429,7 @@ def main(argv=None):
         "known_findings_hit": {fid: cnt for fid, (e, cnt) in known_hit.items()},
         "fresh_violations": len(fresh),
         "warmup_s": round(t_warm, 1),
+        "warmup_error": warm_error,
         "pydrex_source": os.path.dirname(sys.modules["pydrex"].__file__) if "pydrex" in sys.modules else "?",
     }
     cov.update(extra)
@@ -504,7 +513,10 @@ def confirm(v):
 def do_replay(pid, rep):
     from mc import pool as cpool
 
-    _MOD.warmup()
+    try:
+        _MOD.warmup()
+    except Exception:
+        pass
     quiet_pydrex()
     if rep.get("case") is None:
         print("replay file has no case (cross-case finalize violation); re-run the check")
@@ -531,4 +543,12 @@ def do_replay(pid, rep):
 
 
 if __name__ == "__main__":
-    sys.exit(main())
+    try:
+        rc = main()
+    except SystemExit:
+        raise
+    except BaseException:  # never exit 1 (= "violation") because the harness itself broke
+        traceback.print_exc()
+        print("HARNESS-ERROR uncaught exception in the runner", flush=True)
+        rc = 2
+    sys.exit(rc)
